@@ -891,6 +891,9 @@ func mergeObj(g *Term, a, b *Object) (*Object, bool) {
 			r.Elems[i] = v
 		}
 	case KBytes:
+		if keepGeometry && a.Arr != b.Arr {
+			return nil, false // raw-buffer harnesses keep byte contents concrete per path
+		}
 		r.Arr = Ite(g, a.Arr, b.Arr)
 	case KMap:
 		if len(a.Entries) != len(b.Entries) {
@@ -945,6 +948,13 @@ func mergeOutcomes(entryLen int, a, b *Outcome) (*Outcome, bool) {
 			return nil, false
 		}
 	}
+	// paths that were deliberately split on the value of a term (ndConcrete, concretised
+	// lengths and indices) are never merged back
+	for k, ca := range a.St.eqs {
+		if cb, ok := b.St.eqs[k]; ok && cb != ca {
+			return nil, false
+		}
+	}
 	// cheap shape pre-check before any term is built
 	if !canMerge(a.Ret, b.Ret) {
 		if mergeDebug {
@@ -954,7 +964,7 @@ func mergeOutcomes(entryLen int, a, b *Outcome) (*Outcome, bool) {
 	}
 	for id, oa := range a.St.heap {
 		if ob, inB := b.St.heap[id]; inB && oa != ob {
-			if oa.Kind != ob.Kind || !types.Identical(oa.Typ, ob.Typ) || (oa.Kind == KCell && !canMerge(oa.Val, ob.Val)) || len(oa.Elems) != len(ob.Elems) || len(oa.Entries) != len(ob.Entries) {
+			if oa.Kind != ob.Kind || !types.Identical(oa.Typ, ob.Typ) || (oa.Kind == KCell && !canMerge(oa.Val, ob.Val)) || len(oa.Elems) != len(ob.Elems) || len(oa.Entries) != len(ob.Entries) || (keepGeometry && oa.Kind == KBytes && oa.Arr != ob.Arr) {
 				if mergeDebug {
 					mergeFail = fmt.Sprintf("heap obj %d (%s, %s): %s vs %s", id, oa.Site, oa.Typ, describe(oa.Val), describe(ob.Val))
 				}
